@@ -38,6 +38,16 @@ fn no_format(_a: std::fmt::Arguments<'_>) -> String {
     String::new()
 }
 
+static mut REPORTED: usize = 0;
+
+/// stands for HashSet<String>::insert on IDL.error (hashbrown's insert costs CBMC minutes and
+/// is not the subject): counts the definition errors from_token reports
+fn error_insert_model<T, S, A: std::alloc::Allocator>(_s: &mut std::collections::HashSet<T, S, A>, v: T) -> bool {
+    unsafe { REPORTED += 1 };
+    std::mem::forget(v);
+    true
+}
+
 fn duplicates(n: usize, kinds: [u8; NM]) {
     let sc = draw(&mut KSrc);
     let mut mt = Vec::with_capacity(NM);
@@ -50,7 +60,7 @@ fn duplicates(n: usize, kinds: [u8; NM]) {
     let dup = has_duplicate(&sc, n);
     kani::cover!(dup, "a name is defined twice");
     kani::cover!(!dup, "all names distinct");
-    assert!(!idl.error.is_empty() == dup, "P:c11.duplicate_name_rejected_and_only_then");
+    assert!((unsafe { REPORTED } > 0) == dup, "P:c11.duplicate_name_rejected_and_only_then");
     // members are recorded per kind in order of appearance
     let (mut m, mut t, mut e) = (0usize, 0usize, 0usize);
     let mut j = 0;
@@ -81,9 +91,7 @@ macro_rules! c11h {
         #[kani::proof]
         #[kani::unwind(6)]
         #[kani::stub(std::hash::RandomState::new, fixed_random_state)]
-        #[kani::stub(<std::hash::DefaultHasher as std::hash::Hasher>::finish, cheap_finish)]
-        #[kani::stub(<std::hash::DefaultHasher as std::hash::Hasher>::write, cheap_write)]
-        #[kani::stub(<std::hash::DefaultHasher as std::hash::Hasher>::write_str, cheap_write_str)]
+        #[kani::stub(std::collections::HashSet::insert, error_insert_model)]
         #[kani::stub(alloc::fmt::format, no_format)]
         fn $name() {
             duplicates($n, $kinds);
